@@ -1845,4 +1845,149 @@ theorem abs_movWindow (f : MovFn) (w : Option Int) (s r : Series) (hI : Inv s) (
       exact (window_none f s wl hwl1 t v (abs_none_of_ge_nv s hI.1 t v (Nat.le_of_not_lt hv))).symm
 
 
+/-! ### replace_where, fill_missing (column level) -/
+
+
+theorem cellAt_map_in (g : Cell → Cell) (rows : List Row) (i v : Nat) (row : Row) (h : rows[i]? = some row)
+    (hv : v < row.length) : cellAt (rows.map (fun r => r.map g)) i v = g (cellAt rows i v) := by
+  unfold cellAt
+  rw [List.getElem?_map, h]
+  simp only [Option.map_some, List.getElem?_map]
+  rw [List.getElem?_eq_getElem hv]
+  simp
+
+/-- **replace_where**: inside the span every cell `x` becomes `new` when `test x` holds and stays `x` otherwise (a
+NaN-testing `test` fills in-span holes); outside the span nothing appears; the result is trimmed -/
+theorem abs_replaceWhere (tf : TestFn) (new : Cell) (s : Series) (hI : Inv s) (t : Int) (v : Nat) :
+    (InSpan s t → v < s.nv → (s.replaceWhere tf new).abs t v = if tf.eval (s.abs t v) then new else s.abs t v) ∧
+    (¬ InSpan s t → (s.replaceWhere tf new).abs t v = none) ∧ Trimmed (s.replaceWhere tf new) := by
+  have hIm := inv_mapCells (fun x => if tf.eval x then new else x) s hI
+  refine ⟨?_, ?_, trimmed_trim _ (isSome_of_wf _ hIm.2)⟩
+  · intro hin hv
+    obtain ⟨st, hst, h1, h2⟩ := (inSpan_iff s t).mp hin
+    unfold Series.replaceWhere
+    rw [abs_trim _ hIm.1]
+    have hlt : (t - st).toNat < s.rows.length := by omega
+    obtain ⟨row, hrow⟩ : ∃ row, s.rows[(t - st).toNat]? = some row := ⟨s.rows[(t - st).toNat], by simp [hlt]⟩
+    have hl := hI.1 row (List.mem_of_getElem? hrow)
+    simp only [Series.abs, mapCells, hst, h1, if_true]
+    exact cellAt_map_in _ s.rows _ v row hrow (by omega)
+  · intro hn
+    unfold Series.replaceWhere
+    rw [abs_trim _ hIm.1]
+    simp only [Series.abs, mapCells]
+    cases hst : s.start with
+    | none => rfl
+    | some st =>
+      simp only
+      split
+      · rename_i c
+        have : s.rows.length ≤ (t - st).toNat := by
+          apply Nat.le_of_not_lt
+          intro hlt
+          exact hn ((inSpan_iff s t).mpr ⟨st, hst, c, by omega⟩)
+        exact cellAt_none_of_ge _ _ _ (by simpa using this)
+      · rfl
+
+/-! fill_missing, column level -/
+
+theorem fillColumn_length (m : FillMethod) (col : List Cell) : (fillColumn m col).length = col.length := by
+  simp [fillColumn]
+
+/-- observed cells are never touched -/
+theorem fillColumn_obs (m : FillMethod) (col : List Cell) (i : Nat) (x : Rat) (h : colAt col i = some x) :
+    colAt (fillColumn m col) i = some x := by
+  have hi : i < col.length := by
+    apply Nat.lt_of_not_le
+    intro hge
+    simp [colAt, List.getElem?_eq_none hge] at h
+  simp [colAt, fillColumn, List.getElem?_map, List.getElem?_range hi]
+  simp [colAt] at h
+  simp [h]
+
+/-- a missing cell inside the column receives exactly the method's value `fillAt` -/
+theorem fillColumn_missing (m : FillMethod) (col : List Cell) (i : Nat) (hi : i < col.length) (h : colAt col i = none) :
+    colAt (fillColumn m col) i = fillAt m col i := by
+  simp only [colAt, fillColumn, List.getElem?_map, List.getElem?_range hi, Option.map_some, Option.getD_some]
+  simp only [colAt] at h
+  rw [h]
+
+
+
+/-- the head of the filtered `range` is the least index satisfying the predicate -/
+theorem head_filter_range (p : Nat → Bool) (n j : Nat) (h : ((List.range n).filter p).head? = some j) :
+    j < n ∧ p j = true ∧ ∀ j', j' < j → p j' = false := by
+  induction n with
+  | zero => simp at h
+  | succ n ih =>
+    rw [List.range_succ, List.filter_append] at h
+    by_cases hne : ((List.range n).filter p) = []
+    · rw [hne, List.nil_append] at h
+      by_cases hp : p n = true
+      · simp [List.filter, hp] at h
+        subst h
+        refine ⟨by omega, hp, ?_⟩
+        intro j' hj'
+        have : j' ∉ (List.range n).filter p := by rw [hne]; simp
+        simp only [List.mem_filter, List.mem_range, not_and] at this
+        have := this hj'
+        simpa using this
+      · simp [List.filter, hp] at h
+    · have e : ((List.range n).filter p ++ [n].filter p).head? = ((List.range n).filter p).head? := by
+        cases hl : (List.range n).filter p with
+        | nil => exact absurd hl hne
+        | cons a as => rfl
+      rw [e] at h
+      obtain ⟨h1, h2, h3⟩ := ih h
+      exact ⟨by omega, h2, h3⟩
+
+/-- the last element of the filtered `range` is the greatest index satisfying the predicate -/
+theorem last_filter_range (p : Nat → Bool) (n j : Nat) (h : ((List.range n).filter p).getLast? = some j) :
+    j < n ∧ p j = true ∧ ∀ j', j < j' → j' < n → p j' = false := by
+  induction n with
+  | zero => simp at h
+  | succ n ih =>
+    rw [List.range_succ, List.filter_append] at h
+    rw [List.getLast?_append] at h
+    by_cases hp : p n = true
+    · have e : ([n].filter p).getLast? = some n := by simp [List.filter, hp]
+      rw [e] at h
+      simp only [Option.some_or, Option.some.injEq] at h
+      subst h
+      exact ⟨by omega, hp, fun j' h1 h2 => by omega⟩
+    · have e : ([n].filter p).getLast? = none := by simp [List.filter, hp]
+      rw [e] at h
+      simp only [Option.none_or] at h
+      obtain ⟨h1, h2, h3⟩ := ih h
+      refine ⟨by omega, h2, ?_⟩
+      intro j' hj1 hj2
+      by_cases e : j' = n
+      · subst e; simpa using hp
+      · exact h3 j' hj1 (by omega)
+
+/-- `next`: the value comes from the closest observed index at or after `i` -/
+theorem nextObs_spec (col : List Cell) (i j : Nat) (h : nextObs col i = some j) :
+    j < col.length ∧ i ≤ j ∧ colAt col j ≠ none ∧ ∀ j', i ≤ j' → j' < j → colAt col j' = none := by
+  unfold nextObs at h
+  obtain ⟨h1, h2, h3⟩ := head_filter_range _ _ _ h
+  simp only [decide_eq_true_eq] at h2
+  refine ⟨h1, h2.1, h2.2, ?_⟩
+  intro j' hj1 hj2
+  have := h3 j' hj2
+  simp only [decide_eq_false_iff_not, not_and, ne_eq, Decidable.not_not] at this
+  exact this hj1
+
+/-- `previous`: the value comes from the closest observed index at or before `i` -/
+theorem prevObs_spec (col : List Cell) (i j : Nat) (h : prevObs col i = some j) :
+    j < col.length ∧ j ≤ i ∧ colAt col j ≠ none ∧ ∀ j', j < j' → j' ≤ i → j' < col.length → colAt col j' = none := by
+  unfold prevObs at h
+  obtain ⟨h1, h2, h3⟩ := last_filter_range _ _ _ h
+  simp only [decide_eq_true_eq] at h2
+  refine ⟨h1, h2.1, h2.2, ?_⟩
+  intro j' hj1 hj2 hj3
+  have := h3 j' hj1 hj3
+  simp only [decide_eq_false_iff_not, not_and, ne_eq, Decidable.not_not] at this
+  exact this hj2
+
+
 end IrisVerif.Series
